@@ -223,6 +223,12 @@ def required_anchors(pid, metas):
 
 
 def write_evidence(pid, tier, level, coverage, assumptions, wall, violations):
+    if os.path.realpath(pl.REPO) != "/repo":
+        # a run against a scratch copy (self-test with seeded changes) must not overwrite the evidence of the real tree
+        os.makedirs(pl.GEN, exist_ok=True)
+        with open(os.path.join(pl.GEN, "evidence_%s.json" % pid), "w") as f:
+            json.dump(dict(property_id=pid, tier=tier, level=level, coverage=coverage, wall_s=round(wall, 1), violations=violations), f, indent=1)
+        return
     os.makedirs(EVID, exist_ok=True)
     ev = dict(property_id=pid, tier=tier, seed=int(os.environ.get("VERIF_SEED", "0") or 0), level=level, coverage=coverage,
               assumptions=assumptions, wall_s=round(wall, 1), violations=violations)
